@@ -1,6 +1,7 @@
 package optable
 
 import (
+	"fmt"
 	"math/big"
 	"reflect"
 
@@ -52,7 +53,32 @@ func ckksBinKinds() []Kind {
 	}
 	c := func(v interface{}) func(*Env, *Gen) interface{} { return func(*Env, *Gen) interface{} { return v } }
 	slots := func(e *Env) int { return e.CKKS.MaxSlots() }
-	return []Kind{
+	// big-number scalar value alphabet (*big.Int, *big.Float, *bignum.Complex): zero, units, non-integers, Gaussian
+	// integers, negative, beyond 2^64 — the scalar path branches on IsInt() and on the sign; inputs-intact oracle
+	// on the big-number argument itself
+	bigAlphabet := func() []Kind {
+		var r []Kind
+		add := func(name, class string, v func() interface{}) {
+			k := mk("ct1-"+name, class, 1, 0, 3, func(*Env, *Gen) interface{} { return v() })
+			k.Light = true
+			r = append(r, k)
+		}
+		for _, x := range []int64{0, 1, -1, 97} {
+			x := x
+			add("bigint="+itoa(int(x)), "bigint", func() interface{} { return big.NewInt(x) })
+		}
+		add("bigint=2^130+7", "bigint", func() interface{} { v := new(big.Int).Lsh(big.NewInt(1), 130); return v.Add(v, big.NewInt(7)) })
+		for _, x := range []float64{0, 1, -2, 0.5, -1e-9, 3e30} {
+			x := x
+			add("bigfloat="+ftoa(x), "bigfloat", func() interface{} { return bigF(x) })
+		}
+		for _, x := range [][2]float64{{0, 0}, {2, -3}, {0, 1}, {0.5, 0}, {-1.25, 7}} {
+			x := x
+			add("bigcomplex="+ftoa(x[0])+","+ftoa(x[1]), "bigcomplex", func() interface{} { return &bignum.Complex{bigF(x[0]), bigF(x[1])} })
+		}
+		return r
+	}()
+	return append([]Kind{
 		// ciphertext x ciphertext: every (degree of op0, degree of op1) in {1,2}^2 crossed with equal / smaller /
 		// larger scale of op0 (evaluateInPlace has one branch per (aliasing, scale order)), the level relation
 		// varying along the list; each kind is then crossed with every aliasing pattern
@@ -123,10 +149,12 @@ func ckksBinKinds() []Kind {
 			}
 			return v
 		}),
-	}
+	}, bigAlphabet...)
 }
 
 func withHistory(k Kind) Kind { k.History = true; return k }
+
+func ftoa(x float64) string { return fmt.Sprint(x) }
 
 func ckksEvaluatorTarget() *Target {
 	bk := ckksBinKinds()
